@@ -68,7 +68,10 @@ def gen(rng, tier):
             L["block"] = False
             if rng.random() < 0.4:
                 seq = [rng.choice([1, 2, 3]) for _ in range(rng.choice([3, 5]))]
-                seq[rng.randrange(1, len(seq))] = "raise"
+                k = rng.randrange(1, len(seq))
+                seq[k] = "raise"
+                if rng.random() < 0.35:
+                    seq[k - 1] = None     # "no limit" as the last good answer before the callable raises
                 L["count"] = {"seq": seq}
         if L["t"] == "poll":
             if rng.random() < 0.4:
